@@ -1,5 +1,5 @@
 import Proofs.Pareto
-import Proofs.Hypervolume
+import Proofs.Hypervolume3d
 
 /-! The NDS pre-filter of `hypervolume` (`pointset[nds]`, model and proof of C11) composed with
 the hypervolume specification. -/
@@ -73,5 +73,19 @@ theorem hypervolumeCode_2d (r0 r1 : Rat) (pts : List Vec) (order : List Nat)
   show compute [r0, r1] (selectMask pts (ndsMask pts order)) = _
   rw [compute_2d r0 r1 _ (fun p hp => hrect p (hf.1 p hp)) (fun p hp => hle p (hf.1 p hp)),
     hv_front [r0, r1] pts order h1 h2]
+
+/-- **`hypervolume(pointset, ref)` end to end, three objectives** (NDS pre-filter, shift,
+`preProcess`, the general dimension-sweep branch at `dimIndex = 2` calling the 2-D sweep).
+`hbig`: no shifted last coordinate reaches the code's sentinel `-1.0e308`. -/
+theorem hypervolumeCode_3d (r0 r1 r2 : Rat) (pts : List Vec) (order : List Nat)
+    (h1 : ∀ i, i < pts.length → i ∈ order) (h2 : ∀ i ∈ order, i < pts.length)
+    (hrect : Rect 3 pts) (hle : ∀ p ∈ pts, wdVec p [r0, r1, r2] = true)
+    (hbig : ∀ p ∈ pts, negInf < co p 2 - r2) :
+    hypervolumeCode pts [r0, r1, r2] order = some (hv [r0, r1, r2] pts) := by
+  have hf := front_sub_cover pts order h1 h2
+  show compute [r0, r1, r2] (selectMask pts (ndsMask pts order)) = _
+  rw [compute_3d r0 r1 r2 _ (fun p hp => hrect p (hf.1 p hp)) (fun p hp => hle p (hf.1 p hp))
+      (fun p hp => hbig p (hf.1 p hp)),
+    hv_front [r0, r1, r2] pts order h1 h2]
 
 end DH.Hypervolume
